@@ -47,6 +47,24 @@ def mk_conv(owner, tok, variant=0):
     return _own(c, "c:" + tok, owner)
 
 
+def mk_conv_n(owner, tok, nargs):
+    """converter for attr.Converter(..., takes_self / takes_field): extra positional arguments are ignored"""
+    def c(v, *extra):
+        LOG.append(("c:" + tok, owner))
+        return ["c:" + tok + f"/{len(extra)}", v]
+    return _own(c, "c:" + tok, owner)
+
+
+def mk_factory_self(owner, tok):
+    def f(self):
+        LOG.append(("f:" + tok, owner))
+        return 200
+    return _own(f, "f:" + tok, owner)
+
+
+POOL_NVALID = [2, 1, 1]      # and_(v, v'), or_(v, v'), instance_of(int): what `nValid` of a field using them is
+
+
 def mk_val(owner, tok):
     def v(inst, a, value):
         LOG.append(("v:" + tok, owner))
@@ -536,6 +554,7 @@ class World:
         self.fp_bases = fp_bases
         self.sfx = case_suffix(case) + tag
         self.bases = {}
+        self.roots = {}
         self.base_fp = {}
         self.shared = "S" + self.sfx            # owner of everything passed in through shared arguments
         self.allowed = {}                        # id(class) -> (class, {owner: label})
@@ -545,6 +564,20 @@ class World:
         self.Cs = [mk_conv(self.shared, f"C{i}") for i in range(case["convLen"])]
         self.H = [mk_list_hook(self.shared, i) for i in range(case["hookLen"])]
         self.M = {f"k{i}": i for i in range(case["metaSize"])}
+        S = self.shared
+        # user OBJECTS that several classes may use, under any field name (owner: shared arguments)
+        self.pool = {
+            "conv": [attr.Converter(mk_conv(S, "P0")), attr.Converter(mk_conv_n(S, "P1", 1), takes_self=True),
+                     attr.Converter(mk_conv_n(S, "P2", 1), takes_field=True),
+                     attr.Converter(mk_conv_n(S, "P3", 2), takes_self=True, takes_field=True),
+                     attr.converters.pipe(attr.Converter(mk_conv(S, "P4a")), mk_conv(S, "P4b")),
+                     attr.converters.optional(attr.Converter(mk_conv(S, "P5")))],
+            "factory": [attr.Factory(mk_factory(S, "PF0")), attr.Factory(mk_factory_self(S, "PF1"), takes_self=True)],
+            "valid": [attr.validators.and_(mk_val(S, "PV0a"), mk_val(S, "PV0b")),
+                      attr.validators.or_(mk_val(S, "PV1a"), mk_val(S, "PV1b")), attr.validators.instance_of(object)],
+            "eqKey": [mk_key(S, "PK0", 0), mk_key(S, "PK1", 1)],
+            "reprFn": [mk_repr(S, "PR0", 0), mk_repr(S, "PR1", 1)],
+        }
         self.cas = [self._ca_from_state(s, f"ca{j}") for j, s in enumerate(case["cas"])]
         self.these = {f["name"]: self._inline(f, "t") for f in case["these"]}
         self.mk_dict = {f["name"]: self._inline(f, "m") for f in case["mkFields"]}
@@ -584,11 +617,24 @@ class World:
             kw["validator"] = [mk_val(own, f"{tok}.{i}") for i in range(nvalid)]
         if convf:
             kw["converter"] = mk_conv(own, tok, var)
-        if fx.get("eqKey"):
+        pool = fx.get("pool") or {}
+        # (a pool object is used only where the modelled facts of the field say the same: a shrunk case stays consistent)
+        if "conv" in pool and convf:
+            kw["converter"] = self.pool["conv"][pool["conv"]]
+        if "valid" in pool and nvalid == POOL_NVALID[pool["valid"]]:
+            kw["validator"] = self.pool["valid"][pool["valid"]]
+        if "factory" in pool and default:
+            kw.pop("factory", None)
+            kw["default"] = self.pool["factory"][pool["factory"]]
+        if "eqKey" in pool:
+            kw["eq"] = self.pool["eqKey"][pool["eqKey"]]
+        if "reprFn" in pool:
+            kw["repr"] = self.pool["reprFn"][pool["reprFn"]]
+        if fx.get("eqKey") and "eq" not in kw:
             kw["eq"] = mk_key(own, tok + ".eq", var)
         if fx.get("orderKey"):
             kw["order"] = mk_key(own, tok + ".ord", var)
-        if fx.get("reprFn"):
+        if fx.get("reprFn") and "repr" not in kw:
             kw["repr"] = mk_repr(own, tok, var)
         h = hook_obj(hook, mk_hook(own, tok, var) if hook == "custom" else None)
         if h is not None:
@@ -669,6 +715,25 @@ class World:
         elif kind in ("frozenAttrS", "mutableAttrS"):
             ns["b"] = attr.ib()
             b = attr.s(frozen=(kind == "frozenAttrS"))(type("Base_" + kind + self.sfx, (), ns))
+        elif kind in ("deepDefine", "deepFrozen", "deepHooked", "deepAttrS"):
+            gns = {"__module__": MODNAME, "__qualname__": "Root_" + kind + self.sfx}
+            if kind == "deepAttrS":
+                gns["g"] = attr.ib()
+                g = attr.s(type("Root_" + kind + self.sfx, (), gns))
+                ns["b"] = attr.ib()
+                b = attr.s(type("Base_" + kind + self.sfx, (g,), ns))
+            else:
+                gns["__annotations__"] = {"g": int}
+                if kind == "deepHooked":
+                    gns["g"] = attrs.field(converter=mk_conv("B:" + kind + self.sfx, "root"),
+                                           validator=mk_val("B:" + kind + self.sfx, "root"))
+                g = attrs.define(frozen=(kind == "deepFrozen"))(type("Root_" + kind + self.sfx, (), gns))
+                ns["__annotations__"] = {"b": int}
+                b = attrs.define(type("Base_" + kind + self.sfx, (g,), ns))
+            self.roots[kind] = g
+            self.allowed[id(g)] = (g, {"B:" + kind + self.sfx: "own", self.shared: "shared"})
+            if self.fp_bases:
+                self.base_fp["root:" + kind] = deep_of(g, self.allowed_of(g))
         else:
             raise ValueError(kind)
         self.bases[kind] = b
@@ -822,6 +887,10 @@ class World:
             (id(self.L), tuple(id(v) for v in self.L)), (id(self.Cs), tuple(id(v) for v in self.Cs)),
             (id(self.H), tuple(id(v) for v in self.H)), (id(self.M), tuple((k, id(v)) for k, v in self.M.items())),
             tuple((id(h), tuple(id(v) for v in h)) for h in self.hook_lists),
+            tuple((id(c), id(c.converter), c.takes_self, c.takes_field) for c in self.pool["conv"]),
+            tuple((id(f), id(f.factory), f.takes_self) for f in self.pool["factory"]),
+            tuple((id(v), id(getattr(v, "_validators", None)), tuple(id(x) for x in getattr(v, "_validators", None) or ()))
+                  for v in self.pool["valid"]),
         )
 
     def cells_same(self):
